@@ -46,7 +46,7 @@ func (c *ctx) yen(s, t, k int, cost float64) {
 	routine := "YenKShortestPaths"
 	var got [][]graph.Node
 	msg := try(func() { got = path.YenKShortestPaths(c.gg, k, cost, c.node(s), c.node(t)) })
-	c.t.Count("yen_queries", 1)
+	c.count("yen_queries", 1)
 	if r.anyNegEdge {
 		// "will panic if g contains a negative edge weight": the search only
 		// panics for the edges it meets, so whether it panics is a don't-care;
@@ -74,7 +74,7 @@ func (c *ctx) yen(s, t, k int, cost float64) {
 		}
 	}
 	if k == 0 && len(got) == 1 && len(want) == 0 && c.present(s) && c.present(t) && r.reach[s][t] {
-		c.t.Count("yen_k0_queries", 1)
+		c.count("yen_k0_queries", 1)
 		if c.yenK0 {
 			c.classed("yen-k-zero-returns-one", routine, s, t, "k=0 cost=%v: one path %s returned, the 0 shortest paths are no paths", cost, ids(got[0]))
 		}
@@ -112,7 +112,7 @@ func (c *ctx) yen(s, t, k int, cost float64) {
 		}
 	}
 	if len(got) > 1 {
-		c.t.Count("yen_results_with_several_paths", 1)
+		c.count("yen_results_with_several_paths", 1)
 	}
 }
 
@@ -138,7 +138,7 @@ func genYen(g *vlib.G) {
 		ps := pairs(3, true)
 		odometer(len(ps), len(alphaA)+1, func(idx int, digits []int) bool {
 			d := append([]int(nil), digits...)
-			g.Case("n=3 dir w="+digitString(d, alphaA), func(t *vlib.T) {
+			gcase(g, "n=3 dir w="+digitString(d, alphaA), func(t *vlib.T) {
 				sp := specFromDigits(3, true, ps, d, alphaA)
 				r := newRef(sp)
 				if !nonNegative(sp) {
@@ -165,7 +165,7 @@ func genYen(g *vlib.G) {
 		}
 		odometer(len(ps), len(alpha)+1, func(idx int, digits []int) bool {
 			d := append([]int(nil), digits...)
-			g.Case(fmt.Sprintf("n=%d und w=%s", n, digitString(d, alpha)), func(t *vlib.T) {
+			gcase(g, fmt.Sprintf("n=%d und w=%s", n, digitString(d, alpha)), func(t *vlib.T) {
 				r := newRef(specFromDigits(n, false, ps, d, alpha))
 				yenGraph(t, r, graphKinds[idx%5], idx%3, n <= 3 || thorough && n == 4)
 				mark(t, r)
@@ -178,7 +178,7 @@ func genYen(g *vlib.G) {
 		ps := pairs(4, true)
 		odometer(len(ps), 2, func(idx int, digits []int) bool {
 			d := append([]int(nil), digits...)
-			g.Case("n=4 dir e="+digitString(d, alphaOne), func(t *vlib.T) {
+			gcase(g, "n=4 dir e="+digitString(d, alphaOne), func(t *vlib.T) {
 				r := newRef(specFromDigits(4, true, ps, d, alphaOne))
 				yenGraph(t, r, []int{kUSimple, kUMulti, kURot}[idx%3], idx%3, thorough)
 				mark(t, r)
@@ -194,7 +194,7 @@ func genYen(g *vlib.G) {
 		head := len(ps) - tail
 		odometer(head, radix, func(bidx int, hd []int) bool {
 			h := append([]int(nil), hd...)
-			g.Case(fmt.Sprintf("n=4 dir w=%s+%d", digitString(h, alphaB), tail), func(t *vlib.T) {
+			gcase(g, fmt.Sprintf("n=4 dir w=%s+%d", digitString(h, alphaB), tail), func(t *vlib.T) {
 				digits := make([]int, len(ps))
 				copy(digits, h)
 				odometer(tail, radix, func(tidx int, tl []int) bool {
@@ -219,7 +219,7 @@ func genYen(g *vlib.G) {
 		ps := pairs(3, true)
 		odometer(len(ps), 2, func(idx int, digits []int) bool {
 			d := append([]int(nil), digits...)
-			g.Case("k0 n=3 dir e="+digitString(d, alphaOne), func(t *vlib.T) {
+			gcase(g, "k0 n=3 dir e="+digitString(d, alphaOne), func(t *vlib.T) {
 				r := newRef(specFromDigits(3, true, ps, d, alphaOne))
 				c := newCtx(t, r, kSimpleAsc, idx%3)
 				c.yenK0 = true
@@ -307,7 +307,7 @@ func genAStarH(g *vlib.G) {
 	ps := pairs(3, true)
 	odometer(len(ps), len(alphaBFull)+1, func(idx int, digits []int) bool {
 		d := append([]int(nil), digits...)
-		g.Case("n=3 dir w="+digitString(d, alphaBFull), func(t *vlib.T) {
+		gcase(g, "n=3 dir w="+digitString(d, alphaBFull), func(t *vlib.T) {
 			run(t, newRef(specFromDigits(3, true, ps, d, alphaBFull)), idx)
 		})
 		return !g.Stopped()
@@ -317,7 +317,7 @@ func genAStarH(g *vlib.G) {
 		ps := pairs(n, false)
 		odometer(len(ps), len(alphaBFull)+1, func(idx int, digits []int) bool {
 			d := append([]int(nil), digits...)
-			g.Case(fmt.Sprintf("n=%d und w=%s", n, digitString(d, alphaBFull)), func(t *vlib.T) {
+			gcase(g, fmt.Sprintf("n=%d und w=%s", n, digitString(d, alphaBFull)), func(t *vlib.T) {
 				run(t, newRef(specFromDigits(n, false, ps, d, alphaBFull)), idx)
 			})
 			return !g.Stopped()
@@ -331,7 +331,7 @@ func genAStarH(g *vlib.G) {
 				return !g.Stopped()
 			}
 			d := append([]int(nil), digits...)
-			g.Case("n=4 dir w="+digitString(d, alphaB), func(t *vlib.T) {
+			gcase(g, "n=4 dir w="+digitString(d, alphaB), func(t *vlib.T) {
 				run(t, newRef(specFromDigits(4, true, ps, d, alphaB)), idx)
 			})
 			return !g.Stopped()
